@@ -792,10 +792,12 @@ func (s *S3Proxy) PutObject(ctx context.Context, input s3response.PutObjectInput
 		input.WebsiteRedirectLocation = nil
 	}
 
-	// no object lock for backend
-	input.ObjectLockRetainUntilDate = nil
-	input.ObjectLockMode = ""
-	input.ObjectLockLegalHoldStatus = ""
+	// the lock settings of the request go to the endpoint, as they do for
+	// CopyObject and CreateMultipartUpload: an upload that is acknowledged
+	// must not have lost the retention or legal hold it asked for
+	if input.ObjectLockRetainUntilDate != nil && *input.ObjectLockRetainUntilDate == defTime {
+		input.ObjectLockRetainUntilDate = nil
+	}
 
 	var expire *time.Time
 	if input.Expires != nil {
